@@ -87,6 +87,8 @@ pub use memory::{
     MemoryInstance,
     MemoryRange,
 };
+#[cfg(feature = "verif-hooks")]
+pub use memory::OwnershipRegisters;
 
 use crate::checked_transaction::{
     CreateCheckedMetadata,
@@ -357,6 +359,24 @@ impl<M, S, Tx, Ecal, V> Interpreter<M, S, Tx, Ecal, V> {
     /// Get verifier state. Note that the default verifier has no state.
     pub fn verifier(&self) -> &V {
         &self.verifier
+    }
+}
+
+#[cfg(feature = "verif-hooks")]
+impl<M, S, Tx, Ecal, V> Interpreter<M, S, Tx, Ecal, V> {
+    /// Verification hook: the VM-internal free balance of `asset`.
+    pub fn verif_runtime_balance(&self, asset: &fuel_types::AssetId) -> Option<Word> {
+        self.balances.balance(asset)
+    }
+
+    /// Verification hook: the current call-frame stack.
+    pub fn verif_call_stack(&self) -> &[CallFrame] {
+        self.frames.as_slice()
+    }
+
+    /// Verification hook: the ownership registers the VM would use now.
+    pub fn verif_ownership_registers(&self) -> memory::OwnershipRegisters {
+        memory::OwnershipRegisters::new(self)
     }
 }
 
